@@ -52,7 +52,13 @@ Feature::Feature(const Feature& a, const Eigen::Matrix3f& transform)
 {
     for (auto& e : epsilons)
     {
+        // check() compares unit vectors, so keep the epsilons normalized
         e = transform * e;
+        const auto norm = e.norm();
+        if (norm > 0)
+        {
+            e /= norm;
+        }
     }
 }
 
